@@ -113,6 +113,14 @@ def regenerate_guards(pid):
         wold = wt.read_text() if wt.exists() else ""
         if wtext != wold: wt.write_text(wtext)
         info["wiring"] = {"module": "LK.Gen.WiringC03", "obligations": "LK/Proofs/WiringC03.lean", "changed_since_last_run": wtext != wold}
+        # …and the array code of the unrated-items candidate selector (translate/py2lean_cand.py)
+        import py2lean_cand
+        ct = LEAN_DIR / "LK" / "Generated" / "CandC03.lean"
+        try: ctext = py2lean_cand.translate(os.path.dirname(lenskit.__file__))
+        except py2lean_cand.Unsupported as e: return "untranslatable", f"UnratedTrainingItemsCandidateSelector.__call__: {e}", info
+        cold = ct.read_text() if ct.exists() else ""
+        if ctext != cold: ct.write_text(ctext)
+        info["candidate_selector"] = {"module": "LK.Gen.CandC03", "obligations": "LK/Proofs/CandC03.lean", "changed_since_last_run": ctext != cold}
     return "ok", "regenerated" if text != old else "unchanged", info
 
 def obligation_broken(pid, why, mod, tier, seed, replay, info):
@@ -175,7 +183,7 @@ def main():
         if status in ("untranslatable", "obligation-broken"):
             sys.exit(search_chunking(a.pid, f"{status}: {msg}"))
         if status == "build-error":
-            if ginfo is not None and any(f"{k}{a.pid}" in msg for k in ("Guards", "Wiring", "Scatter", "Np", "Imp", "Holdout", "Arrow")):
+            if ginfo is not None and any(f"{k}{a.pid}" in msg for k in ("Guards", "Wiring", "Scatter", "Np", "Imp", "Holdout", "Arrow", "Cand")):
                 sys.exit(obligation_broken(a.pid, "obligation-broken: " + msg.replace("\n", " | ")[:900], mod, a.tier, seed, a.replay, ginfo))
             print(f"machinery error: lake build failed\n{msg}", file=sys.stderr); sys.exit(2)
     else:
@@ -183,7 +191,7 @@ def main():
         r = subprocess.run(["lake", "build", f"LK.Props.{a.pid}", "lkdriver"], cwd=LEAN_DIR, capture_output=True, text=True, timeout=1800)
         if r.returncode != 0:
             bad = [l for l in (r.stdout + r.stderr).splitlines() if "error" in l][:8]
-            if ginfo is not None and any(any(f"{k}{a.pid}" in l for k in ("Guards", "Wiring", "Scatter", "Np", "Imp", "Holdout", "Arrow")) for l in bad):
+            if ginfo is not None and any(any(f"{k}{a.pid}" in l for k in ("Guards", "Wiring", "Scatter", "Np", "Imp", "Holdout", "Arrow", "Cand")) for l in bad):
                 sys.exit(obligation_broken(a.pid, "obligation-broken: " + " | ".join(bad)[:900], mod, a.tier, seed, a.replay, ginfo))
             print("machinery error: lake build failed\n" + "\n".join(bad[:6]), file=sys.stderr); sys.exit(2)
     try:
